@@ -105,7 +105,7 @@ func loadEngine(repo, verif string) (*Engine, error) {
 		e.FnByKey[fnKey(fn)] = fn
 	}
 	for k, c := range e.Contracts {
-		if _, ok := e.FnByKey[k]; !ok {
+		if _, ok := e.FnByKey[c.FnKey]; !ok {
 			return nil, fmt.Errorf("contracts_verif.go:%d: no function %q in package", c.Line, k)
 		}
 	}
